@@ -13,7 +13,7 @@
    real implementation (raw unit of every global through the hook vs the inferred type). *)
 From Coq Require Import String List ZArith QArith Qcanon Bool.
 From NV Require Import Dim.Model Dim.Infer Dim.Sem Dim.Proofs Dim.Run Dim.RunProofs Dim.RunTreeProofs Dim.RunProgProofs Dim.FloatExact Dim.RunFixed.
-From Coq Require Import Floats.
+From Coq Require Import PrimFloat.
 Import ListNotations.
 Open Scope string_scope.
 
